@@ -259,6 +259,9 @@ type Program struct {
 	// TrOverride, when set, gives the tracked flag of every tensor directly
 	// (histories with back-propagations in the middle, see C08).
 	TrOverride []bool `json:"tr_override,omitempty"`
+	// Ctor, when set, names the public constructor that creates leaf i on the
+	// real side ("" = TensorOf; "Full", "Zeros", "Ones" for constant leaves, "Eye").
+	Ctor []string `json:"ctor,omitempty"`
 }
 
 func (p *Program) NTensors() int { return len(p.Leaves) + len(p.Nodes) }
